@@ -202,10 +202,13 @@ class Buffer:
         self.tokens.extend(reversed(toks))
 
     #   skip space and comments (but not paragraphs)
+    #   - stop_at_lang: do not skip a language switch
     #
-    def skip_space(self):
+    def skip_space(self, stop_at_lang=False):
         tok = self.cur()
         while self.is_space(tok):
+            if stop_at_lang and type(tok) is defs.LanguageToken:
+                break
             tok = self.next()
         return tok
 
